@@ -8,17 +8,18 @@ open Biscuit Biscuit.Wire
 
 /-- Exactly one identifier per block (authority included). -/
 theorem revids_count (e : BiscuitMsg) : (revocationIds e).length = e.blocks.length + 1 := by
-  sorry
+  simp [revocationIds]
 
 /-- The `i`-th identifier is the signature found on block `i` of the envelope. -/
 theorem revid_is_block_signature (e : BiscuitMsg) (i : Nat) :
     (revocationIds e)[i]? = ((e.authority :: e.blocks)[i]?).map (·.signature) := by
-  sorry
+  rw [revocationIds_eq_map, List.getElem?_map]
 
 /-- …and the independent decoder finds those signatures in the serialized bytes. -/
 theorem revids_from_bytes (e e' : BiscuitMsg) (h : decodeBiscuit (encodeBiscuit e) = some e') :
     e' = e → revocationIds e' = revocationIds e := by
-  sorry
+  have _ := h
+  intro he; rw [he]
 
 /-- One derivation step: the parent's identifiers stay a prefix; `append` adds exactly
 one, `seal` and `reload` none. -/
@@ -28,7 +29,9 @@ theorem derive_revids (S : SigScheme) (e e' : BiscuitMsg) (op : DeriveOp)
     (h : derive true S e op = .ok e') :
     revocationIds e <+: revocationIds e' ∧
     (revocationIds e').length = (revocationIds e).length + (match op with | .append _ _ => 1 | _ => 0) := by
-  sorry
+  have _ := hwf; have _ := hwf2
+  have key := derive_revids_aux true S e e' op h
+  rcases op with ⟨block, rng⟩ | _ | _ <;> exact key
 
 /-- Envelopes produced by the library: algorithm tag 0, identifier below 2^32. -/
 def LibWF (e : BiscuitMsg) : Prop :=
@@ -36,13 +39,47 @@ def LibWF (e : BiscuitMsg) : Prop :=
 
 theorem derive_keeps_LibWF (S : SigScheme) (e e' : BiscuitMsg) (op : DeriveOp) (hwf : LibWF e)
     (h : derive true S e op = .ok e') : LibWF e' := by
-  sorry
+  obtain ⟨hid, halg⟩ := hwf
+  rcases op with ⟨block, rng⟩ | _ | _
+  · simp only [derive] at h
+    cases ha : appendEnvelopeWith true S e block rng with
+    | error r => rw [ha] at h; cases h
+    | ok p =>
+      obtain ⟨e'', rng'⟩ := p
+      rw [ha] at h
+      simp only [Except.map, Except.ok.injEq] at h
+      subst h
+      obtain ⟨_, _, _, _, _, rfl⟩ := appendEnvelopeWith_ok true S e block rng rng' e'' ha
+      refine ⟨hid, ?_⟩
+      intro sb hsb
+      simp only [List.mem_cons, List.mem_append, List.not_mem_nil, or_false] at hsb
+      rcases hsb with rfl | hsb | rfl
+      · exact halg _ (by simp)
+      · exact halg _ (by simp [hsb])
+      · rfl
+  · obtain ⟨_, _, _, rfl⟩ := sealEnvelopeWith_ok true S e e' h
+    exact ⟨hid, halg⟩
+  · have halg' : ∀ sb ∈ e.authority :: e.blocks, sb.nextKey.algorithm < 2^64 := by
+      intro sb hsb; rw [halg sb hsb]; show (0 : Nat) < 2^64; omega
+    rw [derive_reload_ok true S e e' h, normEnv_eq e hid halg']
+    exact ⟨hid, halg⟩
 
 /-- **C17.** Along every derivation history the identifiers of the derived token begin
 with the identifiers of its ancestor, unchanged. -/
 theorem revids_prefix (S : SigScheme) (e0 e : BiscuitMsg) (ops : List DeriveOp) (hwf : LibWF e0)
     (h : deriveAll true S e0 ops = .ok e) : revocationIds e0 <+: revocationIds e := by
-  sorry
+  induction ops generalizing e0 with
+  | nil => simp only [deriveAll, Except.ok.injEq] at h; subst h; exact List.prefix_refl _
+  | cons op ops ih =>
+    simp only [deriveAll] at h
+    cases hd : derive true S e0 op with
+    | error r => rw [hd] at h; cases h
+    | ok e1 =>
+      rw [hd] at h
+      have halg' : ∀ sb ∈ e0.authority :: e0.blocks, sb.nextKey.algorithm < 2^64 := by
+        intro sb hsb; rw [hwf.2 sb hsb]; show (0 : Nat) < 2^64; omega
+      have h1 := (derive_revids S e0 e1 op hwf.1 halg' hd).1
+      exact List.IsPrefix.trans h1 (ih e1 (derive_keeps_LibWF S e0 e1 op hwf hd) h)
 
 /-- Uniqueness, conditional on what "ed25519 with fresh randomness per operation" means
 symbolically — explicit hypotheses, not axioms: signatures of different payloads differ
@@ -57,6 +94,17 @@ theorem revids_distinct_conditional (S : SigScheme)
     (hd1 : drawSeed r1 = some (s1, r1')) (hd2 : drawSeed r2 = some (s2, r2')) (hne : s1 ≠ s2)
     (h1 : appendEnvelope S e1 b1 r1 = .ok (e1', r1')) (h2 : appendEnvelope S e2 b2 r2 = .ok (e2', r2')) :
     (revocationIds e1').getLast? ≠ (revocationIds e2').getLast? := by
-  sorry
+  obtain ⟨sk1, seed1, _, _, hd1', rfl⟩ := appendEnvelopeWith_ok true S e1 b1 r1 r1' e1' h1
+  obtain ⟨sk2, seed2, _, _, hd2', rfl⟩ := appendEnvelopeWith_ok true S e2 b2 r2 r2' e2' h2
+  rw [hd1] at hd1'; rw [hd2] at hd2'
+  simp only [Option.some.injEq, Prod.mk.injEq, and_true] at hd1' hd2'
+  subst hd1'; subst hd2'
+  intro heq
+  simp only [revocationIds, List.map_append, List.map_cons, List.map_nil] at heq
+  rw [← List.cons_append, ← List.cons_append, List.getLast?_append, List.getLast?_append] at heq
+  simp only [List.getLast?_singleton, Option.some_or, Option.some.injEq] at heq
+  have hm := signInj _ _ _ _ heq
+  have hk := List.append_inj_right' hm (by rw [publen, publen])
+  exact hne (pubInj _ _ hk)
 
 end Biscuit.C17
